@@ -173,7 +173,7 @@ def jobs(tier):
                 out.append(Job('C13', 'c13:h_send', {'state': state, 'entry': entry, 'addr': 10 if state == 'normal_immediate' else 200, 'dll': 'j1939-22'}, W=40, wall=120, validate=1))
     if tier != 'quick':
         # every history x every entry point on more preferred addresses, both data link layers
-        seen = set((j.params['state'], j.params['entry'], j.params['addr'], j.params.get('dll', 'j1939-21')) for j in out if not j.params.get('sym_contender'))
+        seen = set((j.params['state'], j.params['entry'], j.params['addr'], j.params.get('dll', 'j1939-21')) for j in out if 'state' in j.params and not j.params.get('sym_contender'))
         for dll in ('j1939-21', 'j1939-22'):
             for addr in (0, 1, 100, 127, 128, 200, 246, 247, 251, 252):
                 for state in CA_STATES:
